@@ -62,6 +62,7 @@ def plan(tier, seed):
                 units.append(("tree", tier, bi, rv, iv))
     units += [("stream", u) for u in streams.plan(tier, fams=STREAM_FAMS)]
     units += [("chains", t) for t in ("", "vba.string", "x")]
+    units += core.interp_axis([("chains", ""), ("chains", "vba.string")] + [("stream", u) for u in streams.plan(tier, fams=["ctx"])[:3]])
     return units
 
 
